@@ -89,6 +89,14 @@ Theorem C17_smallest_terminates : forall (p : params (A:=Q)) (mn mx : vec3 Q),
   end.
 Proof. exact smallest_terminates. Qed.
 
+(* ... and the ValueError is raised only for a ceiling not above the size of a
+   1x1x1 grid (200 bytes): for every other ceiling set_smallest returns *)
+Theorem C17_smallest_succeeds : forall (p : params (A:=Q)) (mn mx : vec3 Q),
+  (200 / 1024 / 1024 < p_gmemceil p)%Q ->
+  let ng := ngrid_of QA p mn mx in
+  exists ns, smallest QA (smallest_fuel ng) (p_gmemceil p) (map3 PInt ng) = Ok ns.
+Proof. exact smallest_succeeds. Qed.
+
 (* whenever Psize.__str__ reports memory figures they are 200*nx*ny*nz/1024/1024
    for the grid they are reported with, which is ngrid (sequential branch), and
    they are within the ceiling *)
@@ -223,6 +231,7 @@ Print Assumptions C17_minmax_contains_all.
 Print Assumptions C17_spheres_in_boxes.
 Print Assumptions C17_double_parse_same_box.
 Print Assumptions C17_smallest_terminates.
+Print Assumptions C17_smallest_succeeds.
 Print Assumptions C17_mem_estimate.
 Print Assumptions C17_report_total_refuted.
 Print Assumptions C17_report_parallel_raises.
